@@ -2,13 +2,13 @@
 """Apply a seeded change, run the pinned suite, its demonstration and the given checks, undo the change.
 usage: seedtest.py <seed dir with patch.diff demo.py> <property> [more properties...]   (prints a JSON summary)
 
-By default the change is applied to /repo itself (git apply / git checkout -- .).  With SEED_COPY=1 a scratch git
-worktree of /repo is made under /tmp, the change applied there and the checks pointed at it through BISTURI_REPO
-(for use while another run needs /repo untouched); the worktree is removed afterwards."""
+A scratch git worktree of /repo is made under /tmp, the change applied there and the checks pointed at it through BISTURI_REPO, so
+/repo stays untouched (other runs may be using it); the worktree is removed afterwards.  With SEED_INPLACE=1 the change is applied to
+/repo itself instead (git apply / git checkout -- .)."""
 import sys, os, subprocess, json, re
 d = os.path.abspath(sys.argv[1])
 props = sys.argv[2:]
-COPY = os.environ.get('SEED_COPY') == '1'
+COPY = os.environ.get('SEED_INPLACE') != '1'      # default: never touch /repo itself (a `vp run` or another check may be using it)
 tree = '/tmp/seedrepo_%d' % os.getpid() if COPY else '/repo'
 env = dict(os.environ, PYTHONPATH=tree, PYTHONHASHSEED='0', BISTURI_REPO=tree)
 def sh(cmd, **kw):
